@@ -136,9 +136,49 @@ fn packet_site() -> Site {
         })
 }
 
+/// "Every vehicle value reachable by decoding": IS_MAL hands out `Vehicle::Mod(id)` for ANY id (also ids
+/// whose bytes spell a car name).  Each such value must write back as its four bytes, alone and inside
+/// every packet that carries a car name, and read back as whatever the InSim rule says for those bytes.
+fn reachable_site() -> Site {
+    let vals = std::sync::Arc::new(short_read_values());
+    let n = vals.len() as u64 * 2;
+    Site::new("reachable-through-mal", n,
+        "every built-in name, near-name and mod id as a skin id of a decoded IS_MAL (both modes): the Vehicle value it yields writes back as the same four bytes on its own and inside IS_SLC",
+        move |i, acc| {
+            use insim::net::{Codec, Mode};
+            acc.eval();
+            let compressed = i % 2 == 0;
+            let id = vals[(i / 2) as usize];
+            if id == 0 { return; }
+            let codec = Codec::new(if compressed { Mode::Compressed } else { Mode::Uncompressed });
+            let mut f = vec![if compressed { 3 } else { 12 }, 65, 0, 1, 0, 0, 0, 0];
+            f.extend_from_slice(&id.to_le_bytes());
+            let replay = json!({"site": "reachable-through-mal", "index": i, "id": format!("{id:#010x}")});
+            let mut b = bytes::BytesMut::from(&f[..]);
+            let mal = match guard(|| codec.decode(&mut b)) {
+                Ok(Ok(Some(insim::Packet::Mal(m)))) => m,
+                other => { acc.violate(i, "C13|mal|skin-id-rejected".into(), format!("MAL with skin id {id:#010x}: {}", format!("{other:?}").chars().take(100).collect::<String>()), replay); return; },
+            };
+            let Some(v) = mal.iter().next().cloned() else { acc.violate(i, "C13|mal|skin-id-lost".into(), format!("MAL with skin id {id:#010x} decodes to an empty list"), replay); return; };
+            // on its own
+            let mut out = Cursor::new(Vec::new());
+            match guard(|| v.write_le(&mut out)) {
+                Ok(Ok(())) if out.get_ref()[..] == id.to_le_bytes()[..] => {},
+                other => { acc.violate(i, "C13|reachable-value-not-written-back".into(), format!("{v:?} (from MAL skin id {id:#010x}) is written as {} ({other:?})", crate::report::hex(out.get_ref())), replay); return; },
+            }
+            // inside a packet that carries a car name
+            let slc = insim::Packet::Slc(insim::insim::Slc { cname: v.clone(), ..Default::default() });
+            match guard(|| codec.encode(&slc)) {
+                Ok(Ok(fr)) if fr.len() >= 8 && fr[fr.len() - 4..] == id.to_le_bytes()[..] => { acc.class("reachable-value-written-back"); acc.nontrivial(); },
+                other => acc.violate(i, "C13|reachable-value-not-written-back|SLC".into(), format!("{v:?} (from MAL skin id {id:#010x}) inside IS_SLC: {}", format!("{other:?}").chars().take(120).collect::<String>()), replay),
+            }
+        })
+}
+
 pub fn sites(tier: Tier) -> Vec<Site> {
     let mut s = vec![];
     s.push(packet_site());
+    s.push(reachable_site());
     {
         let vals = std::sync::Arc::new(short_read_values());
         let n = vals.len() as u64 * 4 * 8 * 2;
